@@ -646,7 +646,7 @@ pub struct ListReport {
 
 /// Documents of the C15 space. Runs clean, list (JSON, pretty, JSON again), list_all (JSON,
 /// pretty) and judges C15 / C16 / C17.
-pub fn list_check(rd: &Rendered, sp: &Sp, cfg: &Cfg, step: u8, c15_space: bool) -> ListReport {
+pub fn list_check(rd: &Rendered, sp: &Sp, cfg: &Cfg, step: u8, c15_space: bool, has_cr: bool) -> ListReport {
     let t = &rd.text;
     let mut rep = ListReport {
         c15: V::NA,
@@ -705,7 +705,7 @@ pub fn list_check(rd: &Rendered, sp: &Sp, cfg: &Cfg, step: u8, c15_space: bool) 
     rep.n_ready_items = items_la.iter().filter(|i| i.ready).count();
     rep.n_pending_items = items_la.iter().filter(|i| !i.ready).count();
 
-    let mut c16 = V::Held;
+    let mut c16 = if has_cr { V::Skipped("CR in a listing document") } else { V::Held };
     // items vs R-render of the region the item claims (regions taken from the hook markers when
     // available, else from the reference regions if counts agree)
     let markers_of = |evs: &[Event], all: bool| -> Option<Vec<(usize, usize, bool)>> {
@@ -817,9 +817,19 @@ pub fn list_check(rd: &Rendered, sp: &Sp, cfg: &Cfg, step: u8, c15_space: bool) 
             Event::CleanMarkers { markers, .. } => Some(markers.iter().map(|(s, e, _)| (*s, *e)).collect()),
             _ => None,
         });
+        // the markers are "what clean deletes" only if clean really deleted exactly them
+        let lengths_ok = ev_c.iter().all(|e| match e {
+            Event::CleanMarkers { markers, source_len, removed_len } => {
+                let total: usize = markers.iter().map(|(s, e, _)| e.saturating_sub(*s)).sum();
+                source_len.checked_sub(total) == Some(*removed_len)
+            }
+            _ => true,
+        });
         rep.n_markers = cm.as_ref().map(|m| m.len()).unwrap_or(0);
         let mut v = V::Held;
-        if lj1 != lj2 {
+        if !lengths_ok {
+            v = V::Violated("the text clean deleted before whitespace tidying is not exactly the marked regions (lengths do not add up)".into());
+        } else if lj1 != lj2 {
             v = V::Violated("list is not a pure function: two calls with a clean and a list_all in between differ".into());
         } else if items_l.iter().any(|i| !i.ready) {
             v = V::Violated("plain list contains a Pending item".into());
@@ -837,6 +847,8 @@ pub fn list_check(rd: &Rendered, sp: &Sp, cfg: &Cfg, step: u8, c15_space: bool) 
                             "list items {:?} != regions clean deletes {:?} (line ranges of the markers applied by clean)",
                             got, want
                         ));
+                    } else if has_cr {
+                        // CR characters: line ranges compared, highlighting not (str::lines drops CR)
                     } else {
                         // highlighted text == region text
                         match split_pretty(&lp) {
